@@ -13,6 +13,7 @@ import itertools
 import json
 import os
 import random
+import re
 import subprocess
 import sys
 import tokenize
@@ -36,15 +37,31 @@ def gtextN(s: str) -> str:
 # character classes over all code points
 
 
-def char_classes():
+def impl_split_lines(core):
+    """the line decomposition has_ignore_comment iterates over: core.split_lines; a tree without that helper (before
+    repair 8814bf1, or a regression that drops it) iterates source.splitlines(keepends=True) -- the check then runs
+    against that and reports the difference with a failing input instead of crashing"""
+    f = getattr(core, "split_lines", None)
+    return f if callable(f) else (lambda src: src.splitlines(keepends=True))
+
+
+def char_classes(core=None):
     import re
     sp = re.compile(r"\s")
     spaces = [c for c in range(0x110000) if sp.fullmatch(chr(c))]
     breaks = [c for c in range(0x110000) if len(("a" + chr(c) + "b").splitlines()) == 2]
-    return spaces, breaks
+    if core is None:
+        return spaces, breaks
+    # the characters at which the REAL core.split_lines breaks a line, over all code points; and CPython's own
+    # universal-newline reader (what the tokenizer is fed) as the reference
+    split = impl_split_lines(core)
+    eols = [c for c in range(0x110000) if len(split("a" + chr(c) + "b")) == 2]
+    ref = [c for c in range(0x110000)
+           if len(list(iter(io.StringIO("a" + chr(c) + "b", newline="").readline, ""))) == 2]
+    return spaces, breaks, eols, ref
 
 
-def write_class_file(p: Path, spaces, breaks):
+def write_class_file(p: Path, spaces, breaks, eols=(10, 13), ref=(10, 13)):
     probes_s = sorted(set(spaces) | {c + d for c in spaces for d in (-1, 1) if 0 <= c + d < 0x110000}
                       | {0, 35, 58, 65, 127, 128, 0x3000, 0x10FFFF})
     probes_b = sorted(set(breaks) | {c + d for c in breaks for d in (-1, 1) if 0 <= c + d < 0x110000} | {0, 31, 32})
@@ -56,11 +73,15 @@ def write_class_file(p: Path, spaces, breaks):
         f"Definition impl_breaks : list N := {glist(breaks)}.\n"
         f"Definition sp : list (N * bool) := {glist([f'({c}, {gbool(c in ss)})' for c in probes_s])}.\n"
         f"Definition bp : list (N * bool) := {glist([f'({c}, {gbool(c in bs)})' for c in probes_b])}.\n"
+        f"Definition impl_eols : list N := {glist(eols)}.\n"
+        f"Definition ref_eols : list N := {glist(ref)}.\n"
         "Definition sub (a b : list N) := forallb (fun c => existsb (N.eqb c) b) a.\n"
         "Eval vm_compute in (bad_idx (fun p => Bool.eqb (is_space (fst p)) (snd p)) sp ++ "
         "bad_idx (fun p => Bool.eqb (is_break (fst p)) (snd p)) bp ++ "
         "(if sub space_points impl_spaces && sub impl_spaces space_points && sub break_points impl_breaks "
-        "&& sub impl_breaks break_points then [] else [999999%nat])).\n")
+        "&& sub impl_breaks break_points && forallb is_eol impl_eols && forallb is_eol ref_eols "
+        "&& sub [10; 13] impl_eols && sub [10; 13] ref_eols && Nat.eqb (length impl_eols) 2 && Nat.eqb (length ref_eols) 2 "
+        "then [] else [999999%nat])).\n")
 
 
 # ------------------------------------------------------------------------------------------------
@@ -105,13 +126,31 @@ def random_head(rnd):
                 rnd.choice(POST))
 
 
+# markers inside string literals, separators inside the annotated line, untokenizable text (hunt C10-2/4, C14-10)
+EXTRA_SOURCES = [
+    "s = '# pyrefact: ignore'; x = 1\nprint(x)\n",
+    's = """\n# pyrefact: ignore"""; f()\n',
+    "x = 1 \x0c # pyrefact: ignore\n",
+    "x = 1\x0c# pyrefact: ignore\nprint(x)\n",
+    "x = 1; s = '\u2028'  # pyrefact: ignore\n",
+    'x = """a\n# pyrefact: ignore\n"""  # pyrefact: ignore\ny = 2\n',
+    "x = (\n# pyrefact: ignore\n",
+    "x = 1  # pyrefact: ignore",
+    "x = 1  # pyrefact: ignore\r\ny = 2\r\n",
+    "x = 1\ry = 2  # pyrefact: ignore\rz = 3",
+    "s = '#pyrefact:ignore'  #pyrefact:ignore\n",
+    '"""# pyrefact: skip_file"""\n',
+]
+
+
 def multi_line(rnd):
     n = rnd.randint(1, 5)
     out = []
     for i in range(n):
         body = rnd.choice(["a = 1", "b", "", "  c()", "d  # pyrefact: ignore", "e #pyrefact:skip_file",
                            "f # pyrefact : ignore", "# pyrefact: ignor", "g # pyrefact: IGNORE", "#",
-                           "h  #\tpyrefact\xa0:\u2003ignore  "])
+                           "h  #\tpyrefact\xa0:\u2003ignore  ", "s = '# pyrefact: ignore'",
+                           "t = 'a\u2028b'  # pyrefact: ignore", 'u = """', "# x\x0c# pyrefact: ignore"])
         out.append(body + rnd.choice(TERMS if i < n - 1 else TERMS + [""] * 4))
     return "".join(out)
 
@@ -136,7 +175,7 @@ def ranges_for(src: str, rnd, exhaustive: bool):
 
 def impl_case(mods, src: str, ranges, with_skip: bool):
     core = mods["core"]
-    lines = src.splitlines(keepends=True)
+    lines = impl_split_lines(core)(src)
     verdicts, pos = [], 0
     for ln in lines:
         verdicts.append(bool(core.has_ignore_comment(src, core.Range(pos, pos + len(ln)))))
@@ -153,8 +192,28 @@ def impl_case(mods, src: str, ranges, with_skip: bool):
     return lines, verdicts, skip, rr
 
 
+def tokenizer_verdict(src: str):
+    """the model's `coms` input: zero-based physical line numbers with a COMMENT token matching the documented
+    regex, by CPython's tokenizer; None if it raises (computed by the harness, not taken from pyrefact)"""
+    try:
+        return sorted({ln for ln, text in comment_tokens(src) if IGNORE_DOC_RE.search(text)})
+    except (tokenize.TokenError, SyntaxError, ValueError):
+        return None
+
+
+def reference_lines(src: str):
+    """physical lines as CPython's universal-newline reader hands them to the tokenizer"""
+    return list(iter(io.StringIO(src, newline="").readline, ""))
+
+
+def g_coms(coms) -> str:
+    return common.gopt(coms, lambda cs: glist([f"{c}%nat" for c in cs]))
+
+
 def g_case(src, lines, verdicts, skip, rr) -> str:
-    return (f"(mkIgn {gtextN(src)} {glist(lines, gtextN)} {glist(verdicts, gbool)} {gbool(skip)} "
+    skip_g = "(skip_search src)" if skip is None else gbool(skip)
+    return (f"(let src := {gtextN(src)} in mkIgn src {g_coms(tokenizer_verdict(src))} {glist(lines, gtextN)} "
+            f"{glist(src.splitlines(keepends=True), gtextN)} {glist(verdicts, gbool)} {skip_g} "
             f"{glist([f'(({gz(s)}, {gz(e)})%Z, {gbool(v)})' for ((s, e), v) in rr])})")
 
 
@@ -186,37 +245,80 @@ TRIGGERS = {
     "staticmethod": "class A:\n    def m(self, a):\n        return a\n\nprint(A().m(1))\n",
     "if_assign": "import sys\nif sys.argv:\n    v = 1\nelse:\n    v = 2\nprint(v)\n",
     "pointless": "import sys\nsys.argv\n1 + 2\nprint(sys.argv)\n",
+    # callers of processing.remove_nodes / alter_code(removals=...) (hunt C20-0)
+    "dup_from_imports": "from spam import eggs\nfrom spam import spam\nprint(eggs, spam)\n",
+    "dup_imports": "import os\nimport os\nprint(os)\n",
+    "dup_import_alias": "import os.path\nimport os.path as osp\nimport os\nprint(os, osp)\n",
+    "implicit_else": "def f(x):\n    if x > 10:\n        x += 1\n        x *= 12\n        print(x > 30)\n        return 100 - sum(x, 2, 3)\n\n    return 13\n\nprint(f(3))\n",
+    "abstraction": "def f(x):\n    for i in x:\n        if i > 3:\n            if i < 10:\n                print(i)\n                return True\n    return False\n\nprint(f([1, 5]))\n",
+    "assign_return": "def f():\n    s = list()\n    return s\n\nprint(f())\n",
+    # a pure insertion (empty Range) in the MIDDLE of an annotated line: breakout_common_code_in_ifs moves the common
+    # statement behind the if, i.e. between a blocking last statement and its trailing comment (seed C20-c)
+    "common_tail_blocking": "def parse(kind, text):\n    if kind == 'int':\n        value = int(text)\n        checked = True\n    elif kind == 'float':\n        value = float(text)\n        checked = True\n    else:\n        raise ValueError(kind)\n    return value, checked\n\nprint(parse('int', '3'))\n",
     "overused": "def f():\n    return ['some long constant string', 'some long constant string', 'some long constant string', 'some long constant string', 'some long constant string']\n\nprint(f())\n",
 }
 COMMENTS = ["  # pyrefact: ignore", "  #pyrefact:ignore", "\t# pyrefact: ignore  "]
 
 
+# ---- physical lines as the Python tokenizer (and the language reference, 2.1.2) defines them: a line ends at
+#      \n, \r\n or \r and nowhere else.  str.splitlines() also breaks at the SEPS below, the tokenizer does not.
+SEPS = ["\x0c", "\x0b", "\x1c", "\x1d", "\x1e", "\x85", "\u2028", "\u2029"]
+_PY_LINE = re.compile(r"[^\r\n]*(?:\r\n|\r|\n)|[^\r\n]+")
+IGNORE_DOC_RE = re.compile(r"#\s*pyrefact\s*:\s*(skip_file|ignore)")
+
+
+def py_lines(text: str) -> list:
+    """physical lines, terminators kept"""
+    return _PY_LINE.findall(text)
+
+
+def strip_term(line: str) -> str:
+    return line[:-2] if line.endswith("\r\n") else line[:-1] if line[-1:] in ("\r", "\n") else line
+
+
+def comment_tokens(src: str):
+    """(0-based physical line number, text) of every COMMENT token (CPython's tokenizer; newline='' keeps \r and
+    \r\n as they are and still ends a line there)"""
+    return [(t.start[0] - 1, t.string) for t in tokenize.generate_tokens(io.StringIO(src, newline="").readline)
+            if t.type == tokenize.COMMENT]
+
+
 def annotate(src: str, lineno: int, comment: str):
     """Append the comment to physical line `lineno` (0-based) if that leaves the tree unchanged."""
-    lines = src.split("\n")
-    if not lines[lineno].strip() or lines[lineno].rstrip().endswith("\\"):
+    lines = py_lines(src)
+    body = strip_term(lines[lineno])
+    term = lines[lineno][len(body):]
+    if not body.strip() or body.rstrip().endswith("\\"):
         return None
-    lines[lineno] = lines[lineno] + comment
-    new = "\n".join(lines)
+    lines[lineno] = body + comment + term
+    new = "".join(lines)
     try:
         if ast.dump(ast.parse(new)) != ast.dump(ast.parse(src)):
             return None
         # the comment must be a real comment token on that line
-        toks = [t for t in tokenize.generate_tokens(io.StringIO(new).readline)
-                if t.type == tokenize.COMMENT and t.start[0] == lineno + 1]
-        if not toks:
+        if not any(ln == lineno and IGNORE_DOC_RE.search(text) for ln, text in comment_tokens(new)):
             return None
-    except (SyntaxError, tokenize.TokenError):
+    except (SyntaxError, ValueError, tokenize.TokenError):
         return None
-    return new, lines[lineno]
+    return new, body + comment
 
 
-def sweep_cases(tier):
+def indent4(src: str) -> str:
+    """indent every non-blank physical line by four blanks (the harness's own code; textwrap.indent uses
+    str.splitlines)"""
+    return "".join(("    " + l) if l.strip("\r\n \t") else l for l in py_lines(src))
+
+
+def n_lines(src: str) -> int:
+    return len(py_lines(src))
+
+
+def base_cases(tier):
+    """family 'plain': every physical line of every trigger program x comment spelling x final-newline layout"""
     for name, src0 in TRIGGERS.items():
         for layout in ("nl", "no-final-nl"):
             src = src0 if layout == "nl" else src0.rstrip("\n")
-            nlines = src.count("\n") + (0 if src.endswith("\n") else 1)
-            for ln in range(nlines):
+            for ln in range(n_lines(src)):
                 for ci, com in enumerate(COMMENTS):
                     if tier == "quick" and ci > 0 and ln > 0:
                         continue
@@ -226,26 +328,189 @@ def sweep_cases(tier):
                         continue
                     a = annotate(src, ln, com)
                     if a:
-                        yield (name + ":" + layout, ln, com, a[0], a[1])
+                        yield {"family": "plain", "trigger": name + ":" + layout, "lineno": ln, "comment": com,
+                               "source": a[0], "line": a[1], "term": None}
 
 
-def line_present(text: str, line: str) -> bool:
-    return line in text.split("\n")
+# one-line shapes with a separator inside a string literal / an earlier comment of the annotated line
+SEP_SHAPES = {
+    "string": 'print(list(), "a{sep}b")  # pyrefact: ignore\nprint(1)\n',
+    "string2": 's = "a{sep}b"; x = list()  # pyrefact: ignore\nprint(s, x)\n',
+    "comment": 'print(list())  # note{sep} # pyrefact: ignore\nprint(1)\n',
+    "code": 'x = list(){sep}# pyrefact: ignore\nprint(x)\n',
+    "missing_import": 'print(os.getcwd(), "a{sep}b")  # pyrefact: ignore\n',
+    "assign_return": 'def f():\n    s = "a{sep}b"  # pyrefact: ignore\n    return s\n\nprint(ascii(f()))\n',
+    "dead_if": 'import sys\nif False:\n    print("a{sep}b")  # pyrefact: ignore\nprint(sys.argv)\n',
+    "neighbour": 's = "a{sep}b"\nx = list()  # pyrefact: ignore\nprint(s, x, os)\n',
+}
 
 
-def bisect(mods, src: str, line: str):
-    """First stage whose input contains the annotated line and whose output does not."""
+def sep_cases(tier):
+    """family 'sep': str.splitlines separators that are NOT line ends for the tokenizer, inside the annotated line"""
+    for shape, tpl in SEP_SHAPES.items():
+        for sep in SEPS:
+            src = tpl.replace("{sep}", sep)
+            try:
+                ast.parse(src)
+                coms = comment_tokens(src)
+            except (SyntaxError, ValueError, tokenize.TokenError):
+                continue   # e.g. U+2028 outside a string/comment is not valid Python
+            lines = py_lines(src)
+            for ln, text in coms:
+                if IGNORE_DOC_RE.search(text):
+                    yield {"family": "sep", "trigger": f"sep:{shape}:U+{ord(sep):04X}", "lineno": ln, "comment": text,
+                           "source": src, "line": strip_term(lines[ln]), "term": None}
+    # every line of every trigger program, the separator inside an earlier comment of the annotated line
+    k = 0
+    for name, src0 in TRIGGERS.items():
+        for ln in range(n_lines(src0)):
+            seps = SEPS if tier != "quick" else [SEPS[k % len(SEPS)]]
+            k += 1
+            for sep in seps:
+                a = annotate(src0, ln, f"  # n{sep}b  # pyrefact: ignore")
+                if a:
+                    yield {"family": "sep", "trigger": f"{name}:comment:U+{ord(sep):04X}", "lineno": ln,
+                           "comment": "", "source": a[0], "line": a[1], "term": None}
+
+
+def terminator_cases(tier):
+    """family 'term': the trigger programs with \r\n and with \r as the line terminator; the annotated line must be
+    carried over with its terminator"""
+    for name, src0 in TRIGGERS.items():
+        for tname, term in (("crlf", "\r\n"), ("cr", "\r")):
+            src = src0.replace("\n", term)
+            for ln in range(n_lines(src)):
+                a = annotate(src, ln, COMMENTS[0])
+                if a:
+                    yield {"family": "term", "trigger": f"{name}:{tname}", "lineno": ln, "comment": COMMENTS[0],
+                           "source": a[0], "line": a[1], "term": term}
+
+
+def indented_cases(tier):
+    """family 'indent': the trigger programs as indented snippets (format_code dedents, formats, re-indents), plain
+    and with a str.splitlines separator inside a string literal of another line"""
+    k = 0
+    for name, src0 in TRIGGERS.items():
+        for ln in range(n_lines(src0)):
+            a = annotate(src0, ln, COMMENTS[0])
+            if not a:
+                continue
+            k += 1
+            variants = [("plain", a[0])]
+            for sep in (SEPS if tier != "quick" else [SEPS[k % len(SEPS)]]):
+                variants.append((f"U+{ord(sep):04X}", a[0] + f'print("a{sep}b")\n'))
+            for vname, text in variants:
+                src = indent4(text)
+                try:
+                    ast.parse(src)
+                    continue   # not an indented snippet after all
+                except SyntaxError:
+                    pass
+                yield {"family": "indent", "trigger": f"{name}:indent:{vname}", "lineno": ln, "comment": COMMENTS[0],
+                       "source": src, "line": "    " + a[1], "term": None, "dedented": a[1]}
+
+
+def neutral_twin(src: str) -> str:
+    """the same program with ordinary characters: every str.splitlines-only separator -> 'Z', \r\n and \r -> \n"""
+    for sep in SEPS:
+        src = src.replace(sep, "Z")
+    return src.replace("\r\n", "\n").replace("\r", "\n")
+
+
+SYNTH_SOURCES = [
+    "x = 1  # pyrefact: ignore\nprint(x)\n",
+    "y = 0\nx = 1  # pyrefact: ignore\nprint(x)\n",
+    "print(0)\nx = 1  # pyrefact: ignore",
+    "if y:\n    x = 1  # pyrefact: ignore\n",
+    "x = 1\x0c# pyrefact: ignore\nprint(x)\n",
+    "x = 1  # a\x0c# pyrefact: ignore\nprint(x)\n",
+    "x = 1; s = 'a\u2028b'  # pyrefact: ignore\nprint(x)\n",
+    "x = 1; s = 'a\x85b'  # pyrefact: ignore\nprint(x)\n",
+    "x = 1; s = 'a\x1cb'  #\tpyrefact :ignore\nprint(x)\n",
+    "y = 0\r\nx = 1  # pyrefact: ignore\r\nprint(x)\r\n",
+    "y = 0\rx = 1  # pyrefact: ignore\rprint(x)\r",
+]
+
+
+def synthetic_rule_cases(mods, tier):
+    """For small sources with one annotated line: a synthetic rule that yields ONE rewrite (Range(s, e), text), for
+    every range inside the annotated line (terminator included), every insertion point of it, and a few texts, is run
+    through processing.fix (scheduler + _apply_rewrites + _do_rewrite).  The annotated line must come out verbatim."""
+    core, processing = mods["core"], mods["processing"]
+    for src in SYNTH_SOURCES:
+        lines = py_lines(src)
+        coms = [ln for ln, text in comment_tokens(src) if IGNORE_DOC_RE.search(text)]
+        assert len(coms) == 1, src
+        ln = coms[0]
+        start = sum(len(l) for l in lines[:ln])
+        body = strip_term(lines[ln])
+        term = lines[ln][len(body):]
+        end = start + len(lines[ln])
+        points = list(range(start, end + 1))
+        if tier == "quick" and len(points) > 14:   # line start/end regions + every 3rd point
+            points = sorted(set(points[:5] + points[-5:] + points[::3]))
+        for s_ in points:
+            for e_ in points:
+                if e_ < s_ or (tier == "quick" and e_ - s_ > 2 and e_ not in (end - len(term), end)):
+                    continue
+                for text in (("q", "q\n") if s_ == e_ else ("q", "")):
+                    if s_ == e_ == end and term:
+                        continue    # the start of the next line: not this line
+                    def rule(source, _r=core.Range(s_, e_), _t=text):
+                        yield _r, _t
+                    rule.__name__ = "synthetic_rule"
+                    core.parse.cache_clear()
+                    with common.quiet():
+                        try:
+                            out = processing.fix(rule, max_iter=1)(src)
+                        except Exception as e:  # noqa
+                            out = src    # a rewrite that makes the machinery raise changes nothing
+                    yield {"family": "synthetic", "trigger": f"synthetic:Range({s_},{e_})->{text!r}", "source": src,
+                           "line": body, "term": term or None, "lineno": ln, "range": [s_, e_], "text": text,
+                           "output": out, "lost": not line_present(out, body, term or None)}
+
+
+def sweep_cases(tier):
+    yield from base_cases(tier)
+    yield from sep_cases(tier)
+    yield from terminator_cases(tier)
+    yield from indented_cases(tier)
+
+
+def line_present(text: str, line: str, term=None) -> bool:
+    """the annotated line is a physical line of `text`; with `term`: including its terminator (the last line of the
+    text may lack one)"""
+    lines = py_lines(text)
+    for i, l in enumerate(lines):
+        if strip_term(l) == line:
+            if term is None or l == line + term or (l == line and i == len(lines) - 1):
+                return True
+    return False
+
+
+def bisect(mods, src: str, line: str, term=None, ded=None):
+    """First stage whose input contains the annotated line and whose output does not.  An indented snippet is
+    dedented by format_code before the rules run and re-indented at the end: inside the pipeline the dedented form of
+    the line counts as the line."""
     with common.quiet():
         res, log = pipeline.trace_format_code(mods, src)
     if isinstance(res, Exception):
-        return ("exception:" + type(res).__name__, None, None), res
-    cur_has = line_present(src, line)
+        site = "exception:" + type(res).__name__
+        if log:   # the stage after the last completed one raised
+            site += "@after:" + log[-1][0]
+        return (site, src, None), res
+    ded = line if ded is None else ded
+
+    def has(text):
+        return line_present(text, line, term) or (ded != line and line_present(text, ded, term))
     # pre-passes before the first traced stage
-    if log and not line_present(log[0][1], line):
+    if log and not has(log[0][1]):
         return ("main.format_code:prepasses", src, log[0][1]), res
     for name, a, b in log:
-        if line_present(a, line) and not line_present(b, line):
+        if has(a) and not has(b):
             return (name, a, b), res
+    if log and ded != line and line_present(log[-1][2], ded, term):
+        return ("main.format_code:reindent", log[-1][2], res), res
     return ("main.format_code:untraced", src, res), res
 
 
@@ -269,7 +534,69 @@ def _sig_blank_lines(case):
     return case["site"].endswith("fix_too_many_blank_lines")
 
 
-SIGS = {"direct_edit": _sig_direct_edit, "prepass_ws": _sig_prepass_ws, "naming_occurrence": _sig_naming_occurrence}
+def _sig_remove_nodes(case):
+    """The stage hands processing.remove_nodes (directly or through alter_code(removals=...)) a node that lies on
+    the annotated line, and what is left of the line afterwards is its bare comment: remove_nodes has no ignore
+    test (hunt C20-0; site owned by c10h).  Established by re-running the stage with a spy on remove_nodes."""
+    mods = common.import_impl()
+    proc, core = mods["processing"], mods["core"]
+    a, b, site, line = case.get("stage_input"), case.get("stage_output"), case["site"], case["line"]
+    if not isinstance(a, str) or not isinstance(b, str) or "." not in site:
+        return False
+    m = IGNORE_DOC_RE.search(line)
+    hash_at = line.find("#")
+    if not m or hash_at < 0:
+        return False
+    comment = line[hash_at:].strip()
+    if not any(l.strip() == comment for l in py_lines(b)):      # the orphaned comment
+        return False
+    modname, fname = site.split(".", 1)
+    fn = getattr(mods.get(modname), fname, None)
+    if fn is None:
+        return False
+    target = case.get("dedented") or line
+    hits = []
+    orig = proc.remove_nodes
+
+    def spy(source, nodes, root):
+        nodes = list(nodes)
+        pos = 0
+        for l in py_lines(source):
+            if strip_term(l) in (target, line):
+                for n in nodes:
+                    try:
+                        r = core.get_charnos(n, source)
+                    except Exception:  # noqa
+                        continue
+                    if r.start < pos + len(l) and pos < r.end:
+                        hits.append((r.start, r.end))
+            pos += len(l)
+        return orig(source, nodes, root)
+    proc.remove_nodes = spy
+    try:
+        core.parse.cache_clear()
+        with common.quiet():
+            try:
+                fn(a)
+            except TypeError:
+                fn(a, preserve=frozenset())
+    except Exception:  # noqa
+        pass
+    finally:
+        proc.remove_nodes = orig
+    return bool(hits)
+
+
+def _sig_cr_only_else_regex(case):
+    """format_code raises IndexError on a file whose only line terminator is \\r and that has an `else:` for
+    remove_redundant_else: its textual regexes know \\n only (site owned by c02h)"""
+    src = case.get("source", "")
+    return (case["site"].startswith("exception:IndexError") and "\r" in src and "\n" not in src
+            and re.search(r"\belse:", src) is not None)
+
+
+SIGS = {"direct_edit": _sig_direct_edit, "prepass_ws": _sig_prepass_ws, "naming_occurrence": _sig_naming_occurrence,
+        "remove_nodes_no_ignore_test": _sig_remove_nodes, "cr_only_else_regex": _sig_cr_only_else_regex}
 DIRECT_EDIT_SITES: set = set()
 
 
@@ -344,10 +671,10 @@ def check(run: common.Run):
     DIRECT_EDIT_SITES = direct_edit_sites(mods)
 
     # ---- character classes
-    spaces, breaks = char_classes()
+    spaces, breaks, eols, ref_eols = char_classes(mods["core"])
     files, shards = [], []
     p = wd / "classes.v"
-    write_class_file(p, spaces, breaks)
+    write_class_file(p, spaces, breaks, eols, ref_eols)
     files.append(p); shards.append("classes")
 
     # ---- recogniser cases
@@ -359,6 +686,8 @@ def check(run: common.Run):
     for h in heads:
         src = h + TAIL
         cases.append((src, ranges_for(src, rnd, False)[:12], True))
+    for src in EXTRA_SOURCES:
+        cases.append((src, ranges_for(src, rnd, True), False))
     nml = 600 if run.tier == "quick" else 6000
     for _ in range(nml):
         src = multi_line(rnd)
@@ -380,6 +709,8 @@ def check(run: common.Run):
         hist["ignored_lines=%d" % sum(verdicts)] += 1
         if any(verdicts):
             distinct.add(src)
+    line_structure_fail = [{"source": it[0], "core.split_lines": it[1], "reference": reference_lines(it[0])}
+                           for it in items if it[1] is not None and it[1] != reference_lines(it[0])]
     bad_impl = [it for it in items if it[1] is None or isinstance(it[3], tuple)]
     good = [it for it in items if it[1] is not None and not isinstance(it[3], tuple)]
     SH = 300
@@ -388,12 +719,7 @@ def check(run: common.Run):
         p = wd / f"ign_{k // SH}.v"
         lines_v = []
         for (s, l, v, sk, rr) in shard:
-            if sk is None:
-                lines_v.append(f"(let src := {gtextN(s)} in mkIgn src {glist(l, gtextN)} {glist(v, gbool)} "
-                               f"(skip_search src) "
-                               f"{glist([f'(({gz(a)}, {gz(b)})%Z, {gbool(x)})' for ((a, b), x) in rr])})")
-            else:
-                lines_v.append(g_case(s, l, v, sk, rr))
+            lines_v.append(g_case(s, l, v, sk, rr))
         p.write_text("From Coq Require Import List ZArith NArith Bool.\nImport ListNotations.\n"
                      "Require Import Pyrefact.Base Pyrefact.SchedModel Pyrefact.IgnoreModel.\n"
                      "Definition cases : list ign_case := [\n " + ";\n ".join(lines_v) + "\n].\n"
@@ -438,28 +764,66 @@ def check(run: common.Run):
     kf = common.load_findings(PID)
     sweep_fail, sweep_known, n_sweep = [], Counter(), 0
     known_example = {}
-    for (name, ln, com, src, line) in sweep_cases(run.tier):
+    fam_count = Counter()
+    for c in sweep_cases(run.tier):
         n_sweep += 1
+        src, line, term = c["source"], c["line"], c["term"]
+        fam_count[c["family"]] += 1
         mods["core"].parse.cache_clear()
+        exc = None
         with common.quiet():
             try:
                 out = mods["main"].format_code(src)
-            except Exception as e:  # noqa  (totality is C04's business; here it only hides the line check)
-                hist["sweep:exception"] += 1
+            except Exception as e:  # noqa
+                exc = e
+        if exc is not None:
+            # totality is C04's business -- unless the exception is caused by the line structure itself: the same
+            # program with every str.splitlines-only separator replaced by a letter and \n terminators goes through
+            hist["sweep:exception"] += 1
+            twin = neutral_twin(src)
+            if twin == src:
                 continue
-        if line_present(out, line):
-            hist["sweep:kept"] += 1
-            continue
-        (site, a, b), _ = bisect(mods, src, line)
-        case = {"site": site, "line": line, "trigger": name, "lineno": ln, "source": src, "output": out,
-                "stage_input": a, "stage_output": b}
+            with common.quiet():
+                try:
+                    mods["main"].format_code(twin)
+                except Exception:  # noqa
+                    continue
+            (site, a_, b_), _ = bisect(mods, src, line, term, c.get("dedented"))
+            case = dict(c, site=site, output="%s: %s" % (type(exc).__name__, exc), stage_input=a_, stage_output=b_,
+                        problem="format_code raises on this input (and not on the same program with ordinary "
+                                "characters / \\n terminators): the annotated line is not carried over")
+        else:
+            if line_present(out, line, term):
+                hist["sweep:kept"] += 1
+                continue
+            (site, a_, b_), _ = bisect(mods, src, line, term, c.get("dedented"))
+            case = dict(c, site=site, output=out, stage_input=a_, stage_output=b_)
+            if term is not None and line_present(out, line, None):
+                case["problem"] = "the annotated line lost its line terminator %r" % term
         f = match_finding(kf, case)
         if f is None:
             sweep_fail.append(case)
         else:
             sweep_known[f.id] += 1
             known_example.setdefault(f.id, case)
-        hist["sweep:lost@" + site] += 1
+        hist["sweep:lost@" + case["site"]] += 1
+
+    # ---- synthetic rules: ANY rewrite a rule may yield (range x replacement text), through the real scheduler
+    #      and _do_rewrite, must leave a line with an ignore comment verbatim
+    n_synth, synth_fail = 0, []
+    for c in synthetic_rule_cases(mods, run.tier):
+        n_synth += 1
+        if c.get("lost"):
+            c["site"] = "processing.fix/_schedule_rewrites/_do_rewrite + core.has_ignore_comment"
+            f = match_finding(kf, c)
+            if f is None:
+                synth_fail.append(c)
+            else:
+                sweep_known[f.id] += 1
+                known_example.setdefault(f.id, c)
+            hist["synthetic:lost"] += 1
+    sweep_fail = synth_fail[:3] + sweep_fail
+
     for f in kf:
         if f.kind == "finding":
             if sweep_known.get(f.id):
@@ -470,17 +834,27 @@ def check(run: common.Run):
                 common.log(f"note: known finding {f.id} no longer reproduces")
 
     # ---- verdicts
-    for c in sweep_fail[:5]:
+    seen_sites, shown = set(), Counter()
+    for c in sweep_fail:   # one report per (family, site), at most 4 per family
+        key = (c.get("family"), c["site"])
+        if key in seen_sites or shown[c.get("family")] >= 4:
+            continue
+        seen_sites.add(key)
+        shown[c.get("family")] += 1
         run.violation({"kind": "property-oracle", **c,
                        "explanation": "a line carrying an ignore comment is not present verbatim in format_code's output "
                                       "and no listed finding covers this site/shape"}, True)
     for c in skip_fail[:3]:
         run.violation({"kind": "property-oracle", "site": "main.format_code", **c,
                        "explanation": "skip_file comment not honoured"}, True)
+    for c in line_structure_fail[:3]:
+        run.violation({"kind": "property-oracle", "site": "core.split_lines", **c,
+                       "explanation": "core.split_lines does not split the source into the physical lines that CPython's "
+                                      "universal-newline reader feeds the tokenizer"}, True)
     for e in ep_fail[:3]:
         run.violation({"kind": "property-oracle", "site": "main.main/format_file", **e,
                        "explanation": "a skip_file source is not handed back byte-for-byte by the file/stdin entry point"}, True)
-    if not (sweep_fail or skip_fail or ep_fail):
+    if not (sweep_fail or skip_fail or ep_fail or line_structure_fail):
         for d in disagreements[:5]:
             run.violation(dict(d, kernel="IgnoreModel (has_ignore_comment / skip_file / splitlines / \\s)",
                                explanation="model and implementation disagree; the property oracles (annotated-line "
@@ -502,7 +876,7 @@ def check(run: common.Run):
               "Sweep: every physical line of %d trigger programs annotated with an ignore comment, format_code, line "
               "present verbatim; failures bisected by stage tracing. Non-trivial = at least one line carries an "
               "ignore comment; distinct by source text." % len(TRIGGERS)),
-        samples=[items[0][0], items[n_exh // 2][0], items[-1][0], next(iter(sweep_cases(run.tier)))[3]],
+        samples=[items[0][0], items[n_exh // 2][0], items[-1][0], next(iter(sweep_cases(run.tier)))["source"]],
         exhaustive=False, exhaustive_part=n_exh, random_part=nrand + nml, sweep_cases=n_sweep,
         entry_point_cases=len(ep), histogram=dict(hist),
         correspondence_disagreements=len(disagreements), property_oracle_failures=len(sweep_fail) + len(skip_fail) + len(ep_fail),
